@@ -548,3 +548,151 @@ def inline_new_helpers(repo, new_funcs, resolve_helper, bind_args, max_rounds=2)
         if not changed:
             break
     return report
+
+
+# --------------------------------------------------------------------------- tuple records -> scalar locals
+def scalarise_tuple_records(fnode):
+    """a local T that only ever holds None or an n-tuple display and is only read by full unpacking, constant indexing or a
+    None test is replaced by n locals T__0 .. T__{n-1} (returns a transformed deep copy and the list of records rewritten)"""
+    fnode = copy.deepcopy(fnode)
+    assigns = {}
+    for n in walk_own(fnode):
+        if isinstance(n, ast.Assign) and len(n.targets) == 1 and isinstance(n.targets[0], ast.Name):
+            assigns.setdefault(n.targets[0].id, []).append(n)
+    par = {}
+    for n in ast.walk(fnode):
+        for c in ast.iter_child_nodes(n):
+            par[c] = n
+    done = []
+    for T, defs in assigns.items():
+        arities = {len(d.value.elts) for d in defs if isinstance(d.value, ast.Tuple)}
+        if len(arities) != 1 or not all(isinstance(d.value, ast.Tuple) or (isinstance(d.value, ast.Constant) and d.value.value is None) for d in defs):
+            continue
+        n_el = arities.pop()
+        loads = [x for x in walk_own(fnode) if isinstance(x, ast.Name) and x.id == T and isinstance(x.ctx, ast.Load)]
+        ok = bool(loads)
+        for x in loads:
+            p_ = par.get(x)
+            if isinstance(p_, ast.Compare) and p_.left is x and len(p_.ops) == 1 and isinstance(p_.ops[0], (ast.Is, ast.IsNot)) and U(p_.comparators[0]) == "None":
+                continue
+            if isinstance(p_, ast.Assign) and p_.value is x and len(p_.targets) == 1 and isinstance(p_.targets[0], ast.Tuple) and len(p_.targets[0].elts) == n_el \
+                    and all(isinstance(e, ast.Name) for e in p_.targets[0].elts):
+                continue
+            if isinstance(p_, ast.Subscript) and p_.value is x and isinstance(p_.slice, ast.Constant) and isinstance(p_.slice.value, int) and 0 <= p_.slice.value < n_el:
+                continue
+            ok = False
+        if not ok:
+            continue
+        # element used for the None test: one whose in-loop value is refused when None, else the last
+        k_none = n_el - 1
+        guarded = set()
+        for x in walk_own(fnode):
+            if isinstance(x, ast.If) and x.body and isinstance(x.body[-1], ast.Raise) and isinstance(x.test, ast.Compare) and len(x.test.ops) == 1 \
+                    and isinstance(x.test.ops[0], ast.Is) and U(x.test.comparators[0]) == "None" and isinstance(x.test.left, ast.Name):
+                guarded.add(x.test.left.id)
+        for d in defs:
+            if isinstance(d.value, ast.Tuple):
+                for i, e in enumerate(d.value.elts):
+                    if isinstance(e, ast.Name) and e.id in guarded:
+                        k_none = i
+
+        def nm(i):
+            return f"{T}__{i}"
+
+        class RW(ast.NodeTransformer):
+            def visit_FunctionDef(self, n):
+                if n is fnode:
+                    self.generic_visit(n)
+                return n
+
+            def _stmts(self, lst):
+                out = []
+                for st in lst:
+                    r = self.visit(st)
+                    if isinstance(r, list):
+                        out += r
+                    elif r is not None:
+                        out.append(r)
+                return out
+
+            def generic_visit(self, node):
+                for fld in ("body", "orelse", "finalbody"):
+                    sub = getattr(node, fld, None)
+                    if isinstance(sub, list) and sub and isinstance(sub[0], ast.stmt):
+                        setattr(node, fld, self._stmts(sub))
+                if isinstance(node, ast.Try):
+                    for h in node.handlers:
+                        h.body = self._stmts(h.body)
+                for fld, val in ast.iter_fields(node):
+                    if fld in ("body", "orelse", "finalbody", "handlers") and isinstance(val, list) and val and isinstance(val[0], (ast.stmt, ast.ExceptHandler)):
+                        continue
+                    if isinstance(val, ast.AST):
+                        setattr(node, fld, self.visit(val))
+                    elif isinstance(val, list):
+                        setattr(node, fld, [self.visit(v) if isinstance(v, ast.AST) else v for v in val])
+                return node
+
+            def visit_Assign(self, n):
+                if len(n.targets) == 1 and isinstance(n.targets[0], ast.Name) and n.targets[0].id == T:
+                    if isinstance(n.value, ast.Tuple):
+                        return [ast.copy_location(ast.Assign(targets=[ast.Name(id=nm(i), ctx=ast.Store())], value=e, lineno=n.lineno), n) for i, e in enumerate(n.value.elts)]
+                    return [ast.copy_location(ast.Assign(targets=[ast.Name(id=nm(i), ctx=ast.Store())], value=ast.Constant(value=None), lineno=n.lineno), n) for i in range(n_el)]
+                if isinstance(n.value, ast.Name) and n.value.id == T and isinstance(n.targets[0], ast.Tuple):
+                    return [ast.copy_location(ast.Assign(targets=[ast.Name(id=t.id, ctx=ast.Store())], value=ast.Name(id=nm(i), ctx=ast.Load()), lineno=n.lineno), n)
+                            for i, t in enumerate(n.targets[0].elts)]
+                self.generic_visit(n)
+                return n
+
+            def visit_Subscript(self, n):
+                if isinstance(n.value, ast.Name) and n.value.id == T and isinstance(n.slice, ast.Constant):
+                    return ast.copy_location(ast.Name(id=nm(n.slice.value), ctx=ast.Load()), n)
+                self.generic_visit(n)
+                return n
+
+            def visit_Name(self, n):
+                if n.id == T and isinstance(n.ctx, ast.Load):
+                    return ast.copy_location(ast.Name(id=nm(k_none), ctx=ast.Load()), n)
+                return n
+        RW().visit(fnode)
+        ast.fix_missing_locations(fnode)
+        done.append(T)
+        # parents changed: recompute for the next record
+        par = {}
+        for n in ast.walk(fnode):
+            for c in ast.iter_child_nodes(n):
+                par[c] = n
+    return fnode, done
+
+
+def propagate_tail_copies(fnode):
+    """`a = x` (x a local name, a defined once, x not assigned afterwards) outside loops: later reads of `a` become reads of x"""
+    top = fnode.body
+    copies = {}
+    counts = {}
+    last_assign = {}
+    for n in walk_own(fnode):
+        tg = []
+        if isinstance(n, ast.Assign):
+            tg = n.targets
+        elif isinstance(n, (ast.AugAssign, ast.AnnAssign, ast.For)):
+            tg = [n.target]
+        for t in tg:
+            for x in ast.walk(t):
+                if isinstance(x, ast.Name) and isinstance(x.ctx, ast.Store):
+                    counts[x.id] = counts.get(x.id, 0) + 1
+                    last_assign[x.id] = max(last_assign.get(x.id, 0), getattr(n, "lineno", 0))
+    for i, st in enumerate(top):
+        if isinstance(st, ast.Assign) and len(st.targets) == 1 and isinstance(st.targets[0], ast.Name) and isinstance(st.value, ast.Name):
+            a, x = st.targets[0].id, st.value.id
+            if counts.get(a) == 1 and a != x and last_assign.get(x, 0) <= st.lineno:
+                copies[a] = (x, st)
+    if not copies:
+        return fnode
+    keep = []
+    for st in top:
+        if any(st is c[1] for c in copies.values()):
+            continue
+        keep.append(_Rename({}, {a: ast.Name(id=x, ctx=ast.Load()) for a, (x, _) in copies.items()}).visit(st))
+    fnode.body = keep
+    ast.fix_missing_locations(fnode)
+    return fnode
